@@ -202,7 +202,8 @@ def ob_lmtd_equal_branch(h):
     h.assume(And(a > 0.000001, b > 0.000001))
     h.assume(abs(a - b) <= 1e-6)
     L = _lm(a, b)
-    h.check("arithmetic_mean_returned", h.eq(L, (a + b) / 2))
+    # exact comparison also when replaying: the code must return the very expression (a + b) / 2, not a value that merely rounds near it
+    h.check("arithmetic_mean_returned", L == (a + b) / 2)
 
 
 def ob_lmtd_refuses(h):
